@@ -24,7 +24,14 @@ FMTS = ["default", "test", "state"]
 
 # ------------------------------------------------------------------------------------------ generator
 def g_cond(rng, p=0.3):
-    return [rng.choice(SKEYS), rng.choice(SVALS)] if rng.random() < p else None
+    """one optional rule condition: processing_state, or processing_item_applied for an identifier that
+    transformation items AND post-processing items of any pipeline of the case may carry"""
+    r = rng.random()
+    if r < p * 0.7:
+        return ["state", rng.choice(SKEYS), rng.choice(SVALS)]
+    if r < p:
+        return ["applied", rng.choice(IDS + ["s0"])]
+    return None
 
 
 def g_item(rng):
@@ -97,7 +104,7 @@ def number(case):
     return case
 
 
-def g_base(rng, n=None, tpl=0.25, heavy=False, fmtsdiff=False):
+def g_base(rng, n=None, tpl=0.25, heavy=False, fmtsdiff=False, chain=False):
     n = n or rng.choice([1, 2, 2, 3, 3, 3, 4, 4, 5])
     idents = rng.sample(NAMES, n)
     mode = rng.random()
@@ -167,8 +174,30 @@ def g_base(rng, n=None, tpl=0.25, heavy=False, fmtsdiff=False):
             of[fmt] = g_def(rng, None, rich=False, tpl=0)
         if rng.random() < 0.15:
             of[rng.choice(FMTS)] = g_def(rng, None, rich=False, tpl=0)
-    nr = rng.choice([1, 1, 2])
-    rules = [{"f": rng.choice(FIELDS), "v": rng.choice(VALUES), "two": rng.random() < 0.25} for _ in range(nr)]
+    nr = rng.choice([1, 1, 2, 2, 3] if chain else [1, 1, 2])
+    rules = [{"f": rng.choice(FIELDS), "v": rng.choice(VALUES), "two": rng.random() < (0.6 if chain else 0.25)} for _ in range(nr)]
+    if chain:
+        # processing_item_applied conditions that refer to EARLIER items: transformation items and post-processing
+        # items, of the same pipeline, of another operand / resolver entry, of another stage (backend / format)
+        pipes = defs + [bk] + [of[f] for f in FMTS] + [d for _, e in tab if e[0] != "obj" for d in (e[1] if e[0] == "seq" else [e[1]])]
+        marks = ["[ ", "{", "<<", "(", "~", "#", "@", "|", "/", "%", "^", "="]
+        k = 0
+        for d in pipes:
+            if rng.random() < 0.75:
+                d["post"].insert(rng.randint(0, len(d["post"])), {"id": "e%d" % k, "kind": ["embed", marks[k % len(marks)], ""], "cond": None})
+                k += 1
+            if rng.random() < 0.5:
+                d["items"].insert(rng.randint(0, len(d["items"])), {"id": "t%d" % k, "kind": ["add_cond", "m", "t%d" % k], "cond": None})
+                k += 1
+        refs = ["e%d" % j for j in range(k)] + ["t%d" % j for j in range(k)] + ["s0"]
+        for d in pipes:
+            if rng.random() < 0.8:
+                tgt = rng.choice(refs)
+                kind = ["embed", "", " ]" + tgt] if rng.random() < 0.8 else ["tpl_var", "backend"]
+                d["post"].insert(rng.randint(0, len(d["post"])), {"id": "c" + tgt, "kind": kind, "cond": ["applied", tgt]})
+            if rng.random() < 0.4:
+                tgt = rng.choice(refs)
+                d["items"].insert(rng.randint(0, len(d["items"])), {"id": "d" + tgt, "kind": ["suffix", "_" + tgt], "cond": ["applied", tgt]})
     return {"fmt": fmt, "defs": defs, "tab": tab, "bk": bk, "of": of, "rules": rules, "prog": []}
 
 
@@ -251,7 +280,7 @@ def gen_hist(tier, rng):
     out = []
     nbase = 30 if quick else 200
     for bi in range(nbase):
-        base = number(g_base(rng, tpl=0.12, heavy=(bi % 5 == 4)))
+        base = number(g_base(rng, tpl=0.12, heavy=(bi % 5 == 4), chain=(bi % 3 == 1)))
         n = len(base["defs"])
         specs = [e[0] for e in base["tab"]]
         m = len(specs)
@@ -358,7 +387,7 @@ def gen_hist(tier, rng):
     # --- several conversions on ONE backend object: the combined pipeline is composed anew, for the requested
     #     format and the current user pipeline, by every convert() call; convert_rule() keeps what is there
     for bi in range(14 if quick else 150):
-        base = number(g_base(rng, n=rng.choice([2, 2, 3]), tpl=0.1, fmtsdiff=True))
+        base = number(g_base(rng, n=rng.choice([2, 2, 3]), tpl=0.1, fmtsdiff=True, chain=(bi % 2 == 0)))
         n = len(base["defs"])
         comp = ["tree", rng.choice(bracketings(list(range(n - 1))))]      # user pipeline: operands 0..n-2 -> register n
         ext = n - 1                                                        # operand kept aside
@@ -391,7 +420,7 @@ def gen_hist(tier, rng):
             out.append(with_prog(base, prog))
     # --- random histories
     for ri in range(250 if quick else 3000):
-        base = number(g_base(rng, tpl=0.2, fmtsdiff=(ri % 3 == 0)))
+        base = number(g_base(rng, tpl=0.2, fmtsdiff=(ri % 3 == 0), chain=(ri % 4 == 1)))
         rf = lambda: ([rng.choice(FMTS)] if rng.random() < 0.5 else [])
         n = len(base["defs"])
         specs = [e[0] for e in base["tab"]]
@@ -427,7 +456,10 @@ def gen_hist(tier, rng):
 
 # ------------------------------------------------------------------------------------------ Coq terms
 def c_cond(c):
-    return "None" if c is None else f"(Some ({cstr(c[0])}, {cstr(c[1])}))"
+    if c is None: return "CNone"
+    if c[0] == "state": return f"(CState {cstr(c[1])} {cstr(c[2])})"
+    if c[0] == "applied": return f"(CApplied {cstr(c[1])})"
+    raise ValueError(c)
 
 
 def c_item(i):
@@ -647,8 +679,12 @@ PROPERTY = Property(
     rule="histories of pipeline API calls over 1..5 operand pipelines (priorities incl. many ties; `name` of the pipelines unrelated to the "
          "resolver identifiers: equal, reversed order, colliding, missing), resolver tables built from dicts: identifier -> registered object | "
          "callable | callable with a memory (ties with different contents), plus YAML files found by path whose name: differs from the file name, "
-         "aliases (one object under two identifiers); items set_state/field_name_suffix/add_condition with optional processing_state rule "
-         "condition, post-processing embed / simple_template reading pipeline.state or pipeline.vars, concat finalizers, vars; the backend's own "
+         "aliases (one object under two identifiers); items set_state/field_name_suffix/add_condition and post-processing items embed / simple_template (reading "
+         "pipeline.state or pipeline.vars), each with an optional rule condition processing_state or processing_item_applied - the latter "
+         "referring to EARLIER transformation items and to EARLIER post-processing items of the same pipeline, of another operand of +, of "
+         "another resolver entry, of the backend / output-format stage (chain family: uniquely marked embeds, up to 3 rules per conversion, "
+         "60 % two-condition rules, so that the first query of each rule is distinguishable); concat finalizers (no conditions exist for "
+         "finalizers in pySigma), vars; the backend's own "
          "and output-format pipeline: every permutation of the resolver argument list over all table entries (all 120 for 5 entries in the "
          "thorough tier, 24 sampled in quick) and of sub-lists, every bracketing of + (<= 14) in two operand orders and sum() of the same lists, "
          "operands fresh or used once (earlier conversion on another backend instance / earlier sum), resolving the same objects / callables / "
@@ -663,8 +699,8 @@ PROPERTY = Property(
          "sum/resolve of >= 2 pipelines and >= 2 pipelines/definitions are non-empty; distinct by case hash",
     assumptions=["conversion of the restricted rule shape ({field: value} AND-ed with added conditions) by the verification backend "
                  "(TextQueryTestBackend with in-expressions switched off) is modelled as text (query_of), validated by the correspondence only",
-                 "item semantics of set_state, field_name_suffix, add_condition, embed, simple_template, concat and the processing_state "
-                 "rule condition are modelled (a_item_step/a_post_step/fin_step), validated by the correspondence only; identifiers are non-empty",
+                 "item semantics of set_state, field_name_suffix, add_condition, embed, simple_template, concat and the processing_state / "
+                 "processing_item_applied rule conditions (embed and all transformation kinds mark the rule, simple_template does not) are modelled (a_item_step/a_post_step/fin_step), validated by the correspondence only; identifiers are non-empty",
                  "callables / YAML files / callables with a memory are modelled (fresh objects per resolution, Model.Pipeline.minst_all) and checked by the "
                  "correspondence; theorems C14_resolver_perm/_concat/_history_partial are stated for tables of registered objects, "
                  "C14_resolver_entries_perm/_order for all tables; a callable with a memory is modelled with the history-wide instantiation counter "
